@@ -58,6 +58,7 @@ func TestVerifDriverC17(t *testing.T) {
 		}
 		codesSeen := []int{}
 		lookups := []int{}
+		callLookups := []int{} // store lookups (HGET reaching the store) of every single call
 		// count the store lookups (HGET) and, during a burst, hold them on a gate
 		var hgets int32
 		var gate atomic.Value // chan struct{} or nil-channel
@@ -105,7 +106,9 @@ func TestVerifDriverC17(t *testing.T) {
 					up = true
 				}
 			case "call":
+				before := atomic.LoadInt32(&hgets)
 				codesSeen = append(codesSeen, call(op.App, op.Token))
+				callLookups = append(callLookups, int(atomic.LoadInt32(&hgets)-before))
 			case "expire":
 				a.cache.Del(op.App)
 			case "burst":
@@ -151,6 +154,6 @@ func TestVerifDriverC17(t *testing.T) {
 				break
 			}
 		}
-		return map[string]any{"codes": codesSeen, "lookups": lookups, "hung": hung}
+		return map[string]any{"codes": codesSeen, "lookups": lookups, "call_lookups": callLookups, "hung": hung}
 	})
 }
